@@ -20,7 +20,8 @@ PROBES = {"C13": ["stretch_inside_training", "stretch_overlapping_end", "stretch
                   "update_between_transforms", "seasonal_phase_checked", "roundtrip_checked",
                   "fit_transform_checked", "index_preserving_checked", "shifted_twin_checked",
                   "nonzero_origin", "pickle_midway", "pipeline_as_transformer", "seasonal_fit_checked",
-                  "reconfigured_and_refitted"]}
+                  "reconfigured_and_refitted", "strided_stretch", "refitted_on_other_stretch",
+                  "frozen_update_checked"]}
 FAULT_KINDS = {"C13": ["index_shift", "pickle_roundtrip", "update_interleaved", "overlap_batch"]}
 RULE = {"C13": (
     "seeded transformer configuration x series x history of fit, round trips on stretches that "
@@ -40,7 +41,10 @@ SAME_INDEX = {"log", "detrend", "deseason", "cdeseason", "adapt", "boxcox", "ham
 def gen_spec(rng):
     r = rng.random()
     if r < 0.62:
-        return C.gen_transformer(rng)
+        t = C.gen_transformer(rng)
+        if t["kind"] == "boxcox" and rng.random() < 0.4:
+            t = dict(t, method="pearsonr")  # (scipy's bracket search can fail: tolerated at fit)
+        return t
     if r < 0.72:
         return {"kind": "hampel", "window_length": rng.choice([3, 5, 7]), "n_sigma": rng.choice([2, 3])}
     if r < 0.82:
@@ -104,6 +108,8 @@ def generate(prop, rng, tier):
     big = tier == "thorough"
     spec = gen_spec(rng)
     n0 = _min_len(spec) + rng.randint(0, 14 if not big else 50)
+    if spec.get("method") == "pearsonr":
+        n0 += 10
     ops = [{"op": "fit", "n": n0}]
     total = n0
     minstretch = _min_len(spec) if _base(spec)["kind"] in ("hampel",) or spec["kind"] == "ttf_t" else 1
@@ -114,7 +120,8 @@ def generate(prop, rng, tier):
         if r < 0.6:
             where = rng.choice(["inside", "overlap", "after", "start"])
             ops.append({"op": "roundtrip", "where": where, "off": rng.randint(0, 9),
-                        "len": max(minstretch, rng.randint(1, 12))})
+                        "len": max(minstretch, rng.randint(1, 12)),
+                        "stride": rng.choice([1, 1, 1, 2, 3]) if minstretch == 1 else 1})
         elif r < 0.82:
             take = rng.choice([1, 2, 3, 5, 8]) if minstretch == 1 else rng.choice([8, 10, 12])
             ops.append({"op": "update", "take": take, "overlap": rng.choice([0, 0, 1, 2]),
@@ -124,6 +131,8 @@ def generate(prop, rng, tier):
             ops.append({"op": "fit_transform"})
         elif r < 0.96 and spec["kind"] == "optional":
             ops.append({"op": "reconfigure"})
+        elif r < 0.97:
+            ops.append({"op": "refit", "start": rng.randint(1, 7)})
         else:
             ops.append({"op": "pickle"})
     return {"spec": spec, "ops": ops,
@@ -205,6 +214,14 @@ def execute(prop, scen):
             o = op["op"]
             if o == "fit":
                 n_fit = op["n"]
+                if spec.get("method") == "pearsonr":
+                    try:
+                        with peers.paused():
+                            build(spec).fit(y.iloc[:n_fit])
+                            build(spec).fit(y2.iloc[:n_fit])
+                    except Exception:
+                        res.probes["fit_not_possible"] = 1
+                        break  # the lambda search itself failed on this sample: nothing to judge
                 if both("fit", lambda tr, yy: tr.fit(yy.iloc[:n_fit])) is None:
                     break
                 fitted, pos, updates_since_fit = True, n_fit, 0
@@ -230,14 +247,61 @@ def execute(prop, scen):
                 a, b = pos - ov, pos + op["take"]
                 if b > len(y):
                     continue
+                probe_z = y.iloc[max(0, n_fit - 6):n_fit]
+                before_t = None
+                if not op["up"]:
+                    try:
+                        with peers.paused():
+                            before_t = t.transform(probe_z.copy())
+                    except Exception:
+                        before_t = None
                 if both("update", lambda tr, yy: tr.update(yy.iloc[a:b], update_params=op["up"])) is None:
                     break
+                if before_t is not None:
+                    try:
+                        with peers.paused():
+                            after_t = t.transform(probe_z.copy())
+                    except Exception:
+                        after_t = None
+                    if after_t is not None:
+                        res.probe("frozen_update_checked")
+                        if not _same(before_t, after_t):
+                            v("update_without_params_changed_transform", "update(update_params=False) "
+                              "changed what transform returns for a fixed stretch: %s -> %s" % (
+                                  C.fmt(before_t), C.fmt(after_t)))
+                            break
                 pos = b
                 updates_since_fit += 1
                 res.fault("update_interleaved")
                 if ov:
                     res.fault("overlap_batch")
                 digest.update(b"update")
+            elif o == "refit":
+                # the same object fitted again on another stretch: everything learnt from the
+                # first series (components, phase reference, lambda) must be replaced
+                st = op["start"]
+                if st + n_fit > len(y) - 4:
+                    continue
+                if both("fit", lambda tr, yy: tr.fit(yy.iloc[st:st + n_fit])) is None:
+                    break
+                fresh = build(spec).fit(y.iloc[st:st + n_fit])
+                zz = y.iloc[st + 1: st + 1 + max(4, min(10, n_fit - 2))]
+                try:
+                    a_, b_ = t.transform(zz.copy()), fresh.transform(zz.copy())
+                except Exception as e:  # noqa
+                    v("op_raised", "transform after a second fit raised %s: %s" % (
+                        type(e).__name__, str(e)[:120]), op="refit", exc=type(e).__name__)
+                    break
+                res.probe("refitted_on_other_stretch")
+                if not _same(a_, b_):
+                    v("stale_state_after_refit", "after a second fit on a stretch starting %d points "
+                      "later the transformer gives %s, a fresh one fitted on that stretch gives %s"
+                      % (st, C.fmt(a_), C.fmt(b_)))
+                    break
+                # the rest of the history is judged against the first training series again
+                if both("fit", lambda tr, yy: tr.fit(yy.iloc[:n_fit])) is None:
+                    break
+                fitted, pos, updates_since_fit = True, n_fit, 0
             elif o == "reconfigure":
                 # same object, another configuration, fitted again: must behave like a fresh
                 # object with that configuration
@@ -297,17 +361,20 @@ def execute(prop, scen):
                     a = max(0, pos - 1 - op["off"] % max(1, ln))
                 else:
                     a = pos + op["off"]
-                b = min(len(y), a + ln)
-                if b - a < 1 or y.iloc[a:b].notna().sum() < 2:
+                stride = op.get("stride", 1)
+                b = min(len(y), a + ln * stride)
+                if b - a < 1 or y.iloc[a:b:stride].notna().sum() < 2:
                     continue
+                if stride > 1:
+                    res.probe("strided_stretch")
                 res.probe({"inside": "stretch_inside_training", "start": "stretch_inside_training",
                            "overlap": "stretch_overlapping_end",
                            "after": "stretch_after_training"}[where])
-                outs = both("transform", lambda tr, yy: tr.transform(yy.iloc[a:b].copy()))
+                outs = both("transform", lambda tr, yy: tr.transform(yy.iloc[a:b:stride].copy()))
                 if outs is None:
                     break
                 zt, zt2 = outs
-                z, z2 = y.iloc[a:b], y2.iloc[a:b]
+                z, z2 = y.iloc[a:b:stride], y2.iloc[a:b:stride]
                 digest.update(C.digest_obj(zt).encode() if isinstance(zt, (pd.Series, pd.DataFrame))
                               else b"x")
                 if a != 0 and (updates_since_fit or c != 0):
